@@ -71,6 +71,12 @@ def instOf (name : String) : Option Inst :=
   | ["merge", n] => n.toNat?.map fun n => mkInt (Merge.machine Int n true) 1 (some (mergeOk n))
   | ["merge0", n] => n.toNat?.map fun n => mkInt (Merge.machine Int n false) 1 (some (mergeOk n))
   | ["concat", n] => n.toNat?.map fun n => mkInt (Concat.machine Int n) 1 (some (concatOk n))
+  -- beyond the domain of the properties (members that greet late): used by C17 only, to watch the defensive assertions there too
+  | ["concatL", n] => n.toNat?.map fun n => mkInt { Concat.machine Int n with shape := { nSrc := n, lateGreet := true } }
+  | ["flattenL"] => some (mkInt { Flatten.machine Int with shape := { nSrc := 1, relayErr := false, lateGreet := true } })
+  | ["combineL", n] => n.toNat?.map fun n =>
+      { St := Combine.St Int, Loc := Combine.Loc Int, β := List Int, M := { Combine.machine Int n with shape := { nSrc := n, lateGreet := true } },
+        fb := fmtList, pb := parseIntList }
   | ["combine", n] => n.toNat?.map fun n =>
       { St := Combine.St Int, Loc := Combine.Loc Int, β := List Int, M := Combine.machine Int n, fb := fmtList, pb := parseIntList,
         spec := some (combineOk n) }
